@@ -49,6 +49,20 @@ EXTERNAL_POSITIONAL = {
     "hmac.new": ["key", "msg", "digestmod"],
     "base64.b64decode": ["s", "altchars"],
     "int.from_bytes": ["bytes", "byteorder"],
+    "cryptography.hazmat.primitives.keywrap.aes_key_wrap": ["wrapping_key", "key_to_wrap", "backend"],
+    "cryptography.hazmat.primitives.keywrap.aes_key_unwrap": ["wrapping_key", "wrapped_key", "backend"],
+    "cryptography.hazmat.primitives.asymmetric.padding.MGF1": ["algorithm"],
+    "cryptography.hazmat.primitives.asymmetric.padding.OAEP": ["mgf", "algorithm", "label"],
+    "cryptography.hazmat.primitives.ciphers.Cipher": ["algorithm", "mode"],
+}
+
+# ... and of those the reference tree calls with keywords: positional arguments are rewritten as keywords
+EXTERNAL_KEYWORD = {
+    "cryptography.hazmat.primitives.asymmetric.padding.PSS": ["mgf", "salt_length"],
+    "cryptography.hazmat.primitives.kdf.concatkdf.ConcatKDFHash": ["algorithm", "length", "otherinfo", "backend"],
+    "cryptography.hazmat.primitives.kdf.pbkdf2.PBKDF2HMAC": ["algorithm", "length", "salt", "iterations", "backend"],
+    "cryptography.hazmat.primitives.asymmetric.rsa.generate_private_key": ["public_exponent", "key_size", "backend"],
+    "cryptography.hazmat.primitives.asymmetric.ec.generate_private_key": ["curve", "backend"],
 }
 
 
@@ -82,6 +96,12 @@ class CallGraph:
         for fn, sites in self.sites.items():
             for s in sites:
                 call = s.node
+                if isinstance(call, ast.Call) and call.args and s.ext and not s.callees and len(s.ext) == 1 and s.ext[0] in EXTERNAL_KEYWORD \
+                        and not any(isinstance(a, ast.Starred) for a in call.args) and len(call.args) <= len(EXTERNAL_KEYWORD[s.ext[0]]):
+                    names = EXTERNAL_KEYWORD[s.ext[0]]
+                    call.keywords = [ast.keyword(arg=n_, value=a) for n_, a in zip(names, call.args)] + call.keywords
+                    call.args = []
+                    continue
                 if not isinstance(call, ast.Call) or not call.keywords or any(isinstance(a, ast.Starred) for a in call.args) or any(k.arg is None for k in call.keywords):
                     continue
                 if s.ext and not s.callees and len(s.ext) == 1 and s.ext[0] in EXTERNAL_POSITIONAL:
